@@ -7,6 +7,7 @@ import Rare.Model.C16
 import Rare.Drv.C01
 import Rare.Gen.C02
 import Rare.Gen.C12
+import Rare.Model.C12
 namespace Rare.Drv.C02
 open Rare Rare.C02 Rare.Proto
 
@@ -14,6 +15,14 @@ def decInts (s : String) : Option (List Int) :=
   if s = "." then some [] else (s.splitOn ",").mapM String.toInt?
 
 def decNames (names : List Bytes) (idxs : List Int) : List (Bytes × Int) := names.zip idxs
+
+/-- split at line feeds -/
+def splitNl (b : Bytes) : List Bytes :=
+  let (cur, acc) := b.foldl (fun (st : Bytes × List Bytes) c => if c = 0x0a then ([], st.1.reverse :: st.2) else (c :: st.1, st.2)) ([], [])
+  (cur.reverse :: acc).reverse
+
+/-- order-sensitive digest of one index list -/
+def digest (ix : List Int) : Int := ix.foldl (fun acc v => (acc * 131 + v + 7) % 1000000007) 1
 
 def ansOf : Except String KeyAns → String
   | .error _ => "panic"
@@ -42,7 +51,7 @@ def ansOf : Except String KeyAns → String
   model side computing everything from the pattern text: parser, leftmost-first matcher, name table, `GetKey`;
 * `vis <bytes>` – `color.StrLen`'s visible bytes (count compared with the real `StrLen`);
 * `pipe …`, `regexpipe <n>` – pipeline ops shared with C01;
-* `dissectpipe <n> <groups> <pattern> <input> <batch>` – the dissect matcher with one worker, all `n` matches held
+* `dissectpipe <groups> <pattern> <input> <batch>` – the dissect matcher with one worker, all matches held
   until the end and re-read (their index slices come from the instance's `IntPool`, refilled every
   `Gen.C12.poolSize g / (2g+2)` matches).
 -/
@@ -142,15 +151,29 @@ def handle : List String → String
     | none => "bad-args"
   | "pipe" :: rest => Rare.Drv.C01.handle ("pipe" :: rest)
   | ["regexpipe", n, _, _, _, _] => s!"ok stable=1 n={n}"
-  | ["dissectpipe", n, g, _, _, _] =>
-    -- every held match still carries its own line's indices (C12: the pool hands out disjoint views and
-    -- never reuses a block); `crossed` = the worker's pool was refilled at least once, computed from the
-    -- source's pool size
-    match n.toNat?, g.toNat? with
-    | some n, some g =>
-      let perBlock := Gen.C12.poolSize g / (2 * g + 2)
-      s!"ok stable=1 n={n} crossed={if n > perBlock then 1 else 0}"
-    | _, _ => "bad-args"
+  | ["dissectpipe", g, p, inp, _] =>
+    -- the C12 model with its heap of pool blocks: ONE instance matches all lines, the index slices are read
+    -- only afterwards (`C12.matchAll`); `crossed` = the pool was refilled at least once, from the source's pool size
+    match g.toNat?, Hex.dec p, decHexList inp with
+    | some g, some pat, some inputs =>
+      let data := inputs.headD []
+      let pieces := splitNl data
+      let lines := if data.getLast? == some 0x0a || data.isEmpty then pieces.dropLast else pieces
+      match Rare.C12.compileEx pat false with
+      | .error _ => "bad-pattern"
+      | .ok d =>
+        if d.groupCount != g then "bad-args groups" else
+        match Rare.C12.matchAll d lines with
+        | .error _ => "panic"
+        | .ok rs =>
+          let ms := rs.filterMap fun o => match o with
+            | some ix => if ix.getD 1 0 > ix.getD 0 0 then some ix else none
+            | none => none
+          let n := ms.length
+          let sum := ms.foldl (fun acc ix => (acc * 31 + digest ix) % 1000000007) 0
+          let perBlock := Gen.C12.poolSize g / (2 * g + 2)
+          s!"ok stable=1 n={n} crossed={if n > perBlock then 1 else 0} sum={sum}"
+    | _, _, _ => "bad-args"
   | _ => "bad-op"
 
 end Rare.Drv.C02
